@@ -415,9 +415,10 @@ func c10CheckFlight(e *c10Expect, dgs [][]byte) (fails []c10Fail, pkts []*c10Pkt
 	var segs []seg
 	var stream []byte
 	_, isFlight := ips.FrameBuilder.(quic.QUICFlightFrameBuilder)
-	_, isEx := ips.FrameBuilder.(quic.QUICFrameBuilderEx)
-	if qf, ok := ips.FrameBuilder.(quic.QUICFrames); ok && len(qf) == 0 {
-		isEx = false // pass-through
+	builderIsRaw := false // the packer sees the QUICRandomFrames / QUICMultiDatagramFrames itself
+	switch ips.FrameBuilder.(type) {
+	case *quic.QUICRandomFrames, *quic.QUICMultiDatagramFrames:
+		builderIsRaw = true
 	}
 	reframes := ips.FrameBuilder != nil
 	if qf, ok := ips.FrameBuilder.(quic.QUICFrames); ok && len(qf) == 0 {
@@ -466,7 +467,7 @@ func c10CheckFlight(e *c10Expect, dgs [][]byte) (fails []c10Fail, pkts []*c10Pkt
 		if ips.DestConnIDLength <= 0 && e.Name != "upacker" && (len(p.DCID) < 8 || len(p.DCID) > 20) {
 			fail("dcid-len", "datagram %d: library-chosen destination connection ID of %d bytes", i, len(p.DCID))
 		}
-		if len(p.DCID) < 8 && i == 0 {
+		if len(p.DCID) < 8 && i == 0 && e.Name != "upacker" { // the packer does not choose the DCID; dial does
 			fail("dcid-len/below-8", "datagram %d: destination connection ID of %d bytes; a server discards a client Initial whose DCID is shorter than 8 bytes (RFC 9000 7.2); DestConnIDLength = %d", i, len(p.DCID), ips.DestConnIDLength)
 		}
 		if !bytes.Equal(p.DCID, keyDCID) {
@@ -682,6 +683,12 @@ func c10CheckFlight(e *c10Expect, dgs [][]byte) (fails []c10Fail, pkts []*c10Pkt
 				if rf.Length > 0 && plan.PacketSize == 0 && len(p.Payload) != int(rf.Length) {
 					key := "size-frames"
 					switch d := len(p.Payload) - int(rf.Length); {
+					case d > 0 && padRuns == 0 && (plan.CryptoLength > 0 || (e.MaxPacket > 0 && p.HdrLen+int(rf.Length)+16 > e.MaxPacket) || !builderIsRaw):
+						// documented: "If the Length specified is already exceeded by the CRYPTO+PING
+						// frames, no PADDING frames will be included" -- the spec itself asks for more
+						// CRYPTO (CryptoLength) or a larger packet than Length allows, or the packer
+						// cannot see the builder: not a violation
+						return
 					case d > 0 && padRuns == 0:
 						key = "size-frames/overshoot"
 					case d > 0 && lo > 0 && d <= 3*crypto:
@@ -698,7 +705,11 @@ func c10CheckFlight(e *c10Expect, dgs [][]byte) (fails []c10Fail, pkts []*c10Pkt
 				}
 				wantCB := c10U64Min(uint64(plan.CryptoLength), rem)
 				// a CryptoLength the packet cannot hold is not applied (documented: "must leave room")
-				room := uint64(max(0, e.MaxPacket-16-p.HdrLen-8))
+				limit := e.MaxPacket
+				if plan.PacketSize > 0 && plan.PacketSize < limit {
+					limit = plan.PacketSize
+				}
+				room := uint64(max(0, limit-16-p.HdrLen-8))
 				if cb != wantCB && (cb > wantCB || (wantCB <= room && (e.HelloLen >= 0 || i+1 < len(dgs)))) {
 					fail("crypto-split", "datagram %d: %d CRYPTO bytes, CryptoLength = %d (stream offset %d)", i, cb, plan.CryptoLength, streamEnd)
 				}
@@ -706,8 +717,8 @@ func c10CheckFlight(e *c10Expect, dgs [][]byte) (fails []c10Fail, pkts []*c10Pkt
 			return
 		}
 		pf := planChecks(planFor(i))
-		if len(pf) > 0 && !isEx && !isFlight && planFor(i) != planFor(0) {
-			pf = append(planChecks(planFor(0)), c10Fail{"plan-index", fmt.Sprintf("datagram %d follows InitialPackets[0] = %+v, not InitialPackets[%d] = %+v: packet %d bytes, datagram %d bytes, %d CRYPTO bytes (the datagram index only advances for a QUICFrameBuilderEx)", i, planFor(0), min(i, len(ips.InitialPackets)-1), planFor(i), p.PacketLen, len(dg), cb)})
+		if len(pf) > 0 && !isFlight && planFor(i) != planFor(0) && len(planChecks(planFor(0))) == 0 {
+			pf = append([]c10Fail{}, c10Fail{"plan-index", fmt.Sprintf("datagram %d follows InitialPackets[0] = %+v, not InitialPackets[%d] = %+v: packet %d bytes, datagram %d bytes, %d CRYPTO bytes", i, planFor(0), min(i, len(ips.InitialPackets)-1), planFor(i), p.PacketLen, len(dg), cb)})
 		}
 		fails = append(fails, pf...)
 		if !isFlight && crypto > 0 {
@@ -762,6 +773,54 @@ func c10CheckFlight(e *c10Expect, dgs [][]byte) (fails []c10Fail, pkts []*c10Pkt
 		}
 	}
 	return
+}
+
+// c10SpecInvalid states, independently of /repo, which Initial specs cannot be sent as
+// described or would be discarded by every conformant server; "" = acceptable. The class is
+// the monitor sub-key that fires when such a spec is put on the wire anyway.
+func c10SpecInvalid(sp *quic.QUICSpec, maxPacket int) string {
+	ips := &sp.InitialPacketSpec
+	switch {
+	case ips.SrcConnIDLength < 0 || ips.SrcConnIDLength > 20 || ips.DestConnIDLength < 0 || ips.DestConnIDLength > 20:
+		return "cid-range"
+	case ips.DestConnIDLength >= 1 && ips.DestConnIDLength <= 7:
+		return "dcid-len/below-8" // RFC 9000 7.2
+	case ips.InitPacketNumber > 1<<62-1:
+		return "pn-range" // RFC 9000 17.1
+	}
+	var lens []int
+	for _, l := range ips.InitPacketNumberLengths {
+		if l < 1 || l > 4 {
+			return "pn-len-value"
+		}
+		lens = append(lens, int(l))
+	}
+	if ips.InitPacketNumberLength > 4 {
+		return "pn-len-value"
+	}
+	if fl := c10FirstPNLen(lens, int(ips.InitPacketNumberLength), ips.InitPacketNumber); ips.InitPacketNumber >= 1<<(8*uint(fl)) {
+		return "decryptable/pn-not-decodable" // RFC 9000 A.3 with nothing received yet
+	}
+	switch m := sp.UDPDatagramMinSize; {
+	case m < 0 || (m > 0 && m < 1200):
+		return "size-rfc-min" // RFC 9000 14.1
+	case m > 1452:
+		return "size-buffer"
+	}
+	for _, pl := range ips.InitialPackets {
+		switch {
+		case pl.CryptoLength < 0 || pl.PacketSize < 0 || (pl.PacketSize > 0 && pl.PacketSize < 1200):
+			return "size-rfc-min"
+		case pl.PacketSize > maxPacket:
+			return "size-max/plan"
+		}
+	}
+	return ""
+}
+
+// c10Rejected: the dial refused the spec before sending anything.
+func c10Rejected(fl c10Flight) bool {
+	return len(fl.Datagrams) == 0 && strings.Contains(fl.DialErr, "invalid QUICSpec")
 }
 
 // c10RandomLength: QUICRandomFrames.Length in force for datagram i (0: none).
@@ -931,6 +990,22 @@ func c10Derive(r *u.Rng, sp *quic.QUICSpec, e *c10Expect, maxPacket int) {
 	case 2:
 		ips.InitialPackets = []quic.InitialPacketPlan{{PacketSize: min(maxPacket, int(r.Pick(1200, 1232, 1252, 1280)))}}
 	}
+	// mostly specs a dial accepts (the others must be refused, see c10SpecInvalid)
+	if r.Chance(5, 6) {
+		if ips.DestConnIDLength >= 1 && ips.DestConnIDLength <= 7 {
+			ips.DestConnIDLength += 8
+		}
+		if sp.UDPDatagramMinSize > 0 && sp.UDPDatagramMinSize < 1200 {
+			sp.UDPDatagramMinSize = 1200
+		}
+		var lens []int
+		for _, l := range ips.InitPacketNumberLengths {
+			lens = append(lens, int(l))
+		}
+		if fl := c10FirstPNLen(lens, int(ips.InitPacketNumberLength), ips.InitPacketNumber); ips.InitPacketNumber >= 1<<(8*uint(fl)) {
+			ips.InitPacketNumber &= 1<<(8*uint(fl)) - 1
+		}
+	}
 	fbPick := r.Intn(6)
 	if len(ips.InitialPackets) > 0 && fbPick > 3 {
 		fbPick = r.Intn(4) // plans that pin sizes go with builders that leave room
@@ -1015,6 +1090,17 @@ func runSimInitial(w *bufio.Writer, seed uint64, n int, args []string) {
 			}
 			if err != nil {
 				rep.fail(kk+"capture", "dial into the simulation failed: "+err.Error(), detail())
+				continue
+			}
+			// a spec that cannot be sent as described must be refused before anything is sent
+			if why := c10SpecInvalid(sp, e.MaxPacket); why != "" {
+				if c10Rejected(fl) {
+					dist["rejected"]++
+					continue
+				}
+				rep.fail(kk+"not-rejected/"+why, fmt.Sprintf("the spec is not sendable (%s) but the dial sent %d datagram(s) instead of failing with an error", why, len(fl.Datagrams)), detail())
+			} else if c10Rejected(fl) {
+				rep.fail(kk+"spurious-reject", "the dial refused an acceptable spec: "+fl.DialErr, detail())
 				continue
 			}
 			fails, pkts, tok := c10CheckFlight(e, fl.Datagrams)
